@@ -22,6 +22,7 @@ PROP = {
     "harness_timeout": 2400,
     "trusted": [
         "hook hsms/verif_export_frames.go: exports buildFrameBuffers (the net.Buffers writeFrame hands to the transport), decodeOwnedFrame and maxHSMSMsgLen",
+        "harness-owned conn (harness/cmd/c03/xgen.go parkConn, handed over through the public WithDialer option) that can hold the send path's SetWriteDeadline call: parks a synchronous sender inside its generation's write path; net.Pipe writes block until the peer reads, which makes the cross-generation overlap deterministic",
         "scripted raw peer over net.Pipe (harness/fr/peer.go) reading what a real hsmsss connection writes (public WithDialer option, no hook)",
     ],
     "assumptions": [
@@ -31,6 +32,7 @@ PROP = {
         "C03_roundtrip carries the hypothesis 10 + body length <= frame cap; the excluded class is the recorded size-edge finding (C03_roundtrip_unbounded_refuted)",
         "re-stamped siblings share one body and one decodeState: every sibling of a fresh message (constructed / decoded provenance) is framed through the buildFrameBuffers hook and written through a real connection in forward, reverse and random orders, each frame compared with that sibling's own ToBytes()",
         "Derive() chains draw invalid arguments at every builder step (stream 128..255, errored item, W-bit on an even function) from constructed and decoded bases (incl. decoded headers no constructor produces), with a corpus violating each validation clause at each chain position; the oracle judges Build by the final requested fields (documented error order) and a successful Build by the E37 layout of exactly those fields",
+        "cross-generation overlap history (sender of generation N parked in its write path, N dropped by the peer, sender of N+1 inside its transport Write with its prefix partly read, N's sender released and awaited, rest read): what the peer reads on N+1 must be that message's ToBytes(); all waits are on events (parked / dialled / Selected / sender returned / bytes read), none on quiet periods; plus an unparked race of 4 senders over 3 generations (every complete frame read must be one of the messages sent)",
         "on-the-wire equality is observed for the sends the harness performs (sync W / sync no-W / async / reply / forward sync+async / SendSECS2Message, Select.req, Linktest.req, Separate.req); writeFrame's choice of buffers is tied by the hook on every pure case",
     ],
 }
